@@ -79,6 +79,11 @@ fn plain_name(b: &[u8], mut i: usize) -> Result<usize, &'static str> {
             return Err("compression-or-extended-label-in-query");
         }
         if i + 1 + l > b.len() {
+            // a label running past the end: a genuine truncation only if what is there
+            // could be label data (the responder's scope excludes NUL octets in labels)
+            if b[i + 1..].contains(&0) {
+                return Err("nul-inside-label");
+            }
             return Err("truncated");
         }
         if b[i + 1..i + 1 + l].contains(&0) {
